@@ -125,7 +125,8 @@ def run_rules(ctx, chk):
         sites = [bb for bb, t, fn in common.user_calls(b) if fn and atomic_kind(mir.callee_name(fn)) in ATOMIC_WRITES]
         if not sites:
             continue
-        from .startup_model import is_reader_new
+        from .startup_model import is_reader_new, init_reader_open
+        init_reader_open(fb)
         eng = common.mk_engine(fb, inline_depth=8, no_inline=is_reader_new)
         for p in eng.run(b):
             for e in classify_effects(p):
@@ -146,7 +147,7 @@ def run_rules(ctx, chk):
                 chk.ob('C11.P5', 'unclassified-atomic-store-in:%s' % path.split('::')[-1], False, site,
                        '%s performs an atomic store to an unrecognised target' % path)
     chk.analysed['call_sites'] += n_sites
-    chk.floor('C11.P5', 'atomic store sites inspected', n_sites, 3)
+    chk.floor('C11.P5', 'atomic store sites inspected', n_sites, 2)
     # ---- P6: "never returns to 0 ... when an update starts from an odd value left behind by a crashed writer":
     # a restarted writer must take such a segment over in place, i.e. the usability probe is exactly the
     # client open routine and that routine does not look at the generation's parity (C04.T1/T5/T8)
